@@ -231,7 +231,7 @@ namespace Nmfu
 theorem leafOK_of_check (l : MLeaf)
     (h : (match l with
           | .next st adv => adv == 1 && decide (st ≥ 0)
-          | .ret code _ adv => code != "OK" && code != "SPIN" && decide (adv ≤ 1)
+          | .ret code _ adv => code != "OK" && decide (adv ≤ 1)
           | .yielded _ _ adv => decide (adv ≤ 1)) = true) : LeafOK l := by
   cases l with
   | next st adv => simp only [Bool.and_eq_true, beq_iff_eq] at h; simpa [LeafOK] using h.1
